@@ -217,6 +217,13 @@ def run(ctx):
     augs = [n for n in g.nodes if n.kind == "stmt" and isinstance(n.ast, ast.AugAssign) and "BODYLEN" in dv.sources(n.ast.value, n.id)]
     for a in augs:
         lv = unparse(a.ast.target)
+        fa = set()
+        for t, lab in g.guards(a.id, exc=False):
+            fa |= facts(t, lab == "true")
+        if any((f, False) in fa for f in flags):
+            # the BodyLength-derived count is added only where the frame is known NOT to be delimited
+            ctx.instance(R5, "Codec.decode[delimited frame consumes its own extent]", True, "", loc(a.ast))
+            continue
         fixes = []
         for n in g.nodes:
             if n.kind == "stmt" and isinstance(n.ast, ast.Assign) and unparse(n.ast.targets[0]) == lv and n.id != a.id:
@@ -968,6 +975,11 @@ def checksum_rule(ctx, R4, dv):
             continue
         gs = g.guards(r.id, exc=False)
         flags = [unparse(t) for t, lab in gs if isinstance(t, ast.Name) and lab == "true"]
+        # ... or reached on the false edge of `not flag` (the bad verdict returned first, the message after it)
+        for t, lab in gs:
+            for a_, tv_ in facts(t, lab == "true"):
+                if tv_ and re.fullmatch(r"\w+", a_) and a_ not in flags:
+                    flags.append(a_)
         done = False
         for flag in flags:
             dn = [n for n in g.nodes if n.kind == "stmt" and flag in stores(n)]
